@@ -286,3 +286,52 @@ package component_definition
 //@ requires [property-built] n != nil && n.Configurations != nil
 //@ assigns mapcontents(n.Configurations)
 //@ ensures [recorded] in(path, n.Configurations) && n.Configurations[path] == configValue
+
+// ---- field scanning (C11) ----------------------------------------------------------------------------------------------
+//   ScanTarget      the Meta whose fields are being scanned (ghost; set by NewMeta for the duration of the scan)
+//   Embeds(sf)      the code's own test for "look inside": anonymous, untagged, struct kind (reflect.Kind Struct = 25)
+//   FieldOK(m, f)   a recorded field: built, settable, not itself an embedded struct, its holder belongs to m, and its
+//                   type is the struct field's type - the same record whatever the nesting depth
+//   FieldsInv(m)    every recorded field of m is FieldOK
+//@ ghost var ScanTarget *Meta
+//@ spec func Embeds(sf reflect.StructField) bool = sf.Anonymous && sf.Tag == "" && sf.Type.Kind() == 25
+//@ spec func FieldOK(m *Meta, f *Field) bool = f != nil && f.Base != nil && RCanSet(f.Value) && !Embeds(f.StructField) && f.Holder != nil && f.Holder.Meta == m && f.Type == f.StructField.Type && RTypeOf(f.Value) == f.Type
+//@ spec func FieldsInv(m *Meta) bool = m != nil && forall(k, int, implies(0 <= k && k < len(m.Fields), FieldOK(m, m.Fields[k])), m.Fields[k])
+//@ spec func HolderOK(m *Meta, h *Holder) bool = h != nil && h.Base != nil && h.Meta == m && h.Type != nil && h.Type == RTypeOf(h.Value) && implies(h.Type.Kind() == 22, h.Type.Elem() != nil)
+
+//@ func NewHolder
+//@ property C11
+//@ requires [meta] m != nil
+//@ assigns nothing
+//@ ensures [holder] fresh(result) && result.Base == m.Base && result.Meta == m && !result.IsEmbed && result.Holder == nil
+
+//@ func NewEmbedHolder
+//@ property C11
+//@ requires [outer] holder != nil
+//@ assigns nothing
+//@ ensures [embed-holder] fresh(result) && result.Base == base && result.Meta == holder.Meta && result.IsEmbed && result.Holder == holder
+
+// One field of the struct under scan: an embedded, untagged, by-value struct is entered (recursion, with a holder that
+// points back to this one); any other field is recorded exactly when it is settable, with its descriptor, its value
+// and this holder; nothing else is written - in particular no memory of the component.
+//@ func (*Meta).scanFields$1
+//@ property C11
+//@ callback functype reflectx.FieldAcceptor
+//@ stable m, holder, holder.Meta
+//@ requires-at-creation [captured] m != nil && m == ScanTarget && holder != nil && holder.Meta == m
+//@ requires [scanning] ScanTarget == m && FieldsInv(m)
+//@ requires [field-descriptor] field.Type != nil && RTypeOf(value) == field.Type
+//@ assigns m.Fields, VisitLen, VisitAt
+//@ ensures [fields-inv-kept] FieldsInv(m)
+//@ ensures [fields-only-grow] len(m.Fields) >= len(old(m.Fields)) && forall(k, int, implies(0 <= k && k < len(old(m.Fields)), m.Fields[k] == old(m.Fields[k])))
+//@ ensures [settable-leaf-recorded] implies(!Embeds(field) && RCanSet(value), len(m.Fields) == len(old(m.Fields)) + 1 && m.Fields[len(m.Fields) - 1].StructField == field && m.Fields[len(m.Fields) - 1].Value == value && m.Fields[len(m.Fields) - 1].Holder == holder)
+//@ ensures [unsettable-leaf-skipped] implies(!Embeds(field) && !RCanSet(value), m.Fields == old(m.Fields))
+//@ ensures [never-fails] result == nil
+
+//@ func (*Meta).scanFields
+//@ property C11
+//@ requires [scanning] m != nil && ScanTarget == m && FieldsInv(m)
+//@ requires [holder-built] HolderOK(m, holder)
+//@ assigns m.Fields, VisitLen, VisitAt
+//@ ensures [fields-inv-kept] FieldsInv(m)
+//@ ensures [fields-only-grow] len(m.Fields) >= len(old(m.Fields)) && forall(k, int, implies(0 <= k && k < len(old(m.Fields)), m.Fields[k] == old(m.Fields[k])))
